@@ -16,13 +16,15 @@ from . import common as C
 
 THEOREMS = [
     "newType_fresh", "size_mono_runOps", "named_distinct",
-    "WF_canon", "canon_same_iff_key", "key_iff_identical", "canon_identity_partial", "canon_identity_struct_partial",
-    "canon_identity_counterexample_embedded", "canon_identity_counterexample_tag", "canon_identity_counterexample_pkgpath",
-    "methodset_counterexample_ambiguous", "methodset_counterexample_seen", "methodset_counterexample_ptrshadow",
-    "methodset_counterexample_fieldhide", "methodset_counterexample_protoname", "methodset_counterexample_namedptr",
-    "methodset_counterexample_pkgname", "methodSet_flat", "specMethodSet_flat", "methodset_correct_partial_flat",
-    "assert_counterexample_memo", "assertType_step", "assert_correct_partial", "assert_concrete",
-    "iface_eq_counterexample", "iface_eq_partial",
+    "WF_canon", "canon_same_iff_key", "structKey_iff_identical", "ifaceKey_inj", "key_iff_identical", "canon_identity",
+    "canon_identity_counterexample_ifacename",
+    "old_structKey_collision_embedded", "old_structKey_collision_tag", "old_structKey_collision_pkgpath",
+    "methodset_counterexample_ambiguous", "methodset_counterexample_ptrshadow", "methodset_counterexample_fieldhide",
+    "methodset_counterexample_pkgname",
+    "ms_fold", "s_fold", "level_step", "loops_agree", "methodset_correct_clean", "methodset_correct",
+    "repaired_seen_by_id", "repaired_proto_names", "repaired_defined_pointer",
+    "assert_counterexample_methodset", "assertType_step", "assert_correct", "assert_concrete", "repaired_memo_by_id",
+    "comparableM_eq", "iface_eq", "iface_eq_counterexample_uninitialised", "repaired_comparable_on_demand",
 ]
 
 
